@@ -41,7 +41,7 @@ def run(tier, seed, replay=None):
         cases.append({'id': c, 'cmds': [['file', 't.vcd', text], ['load', 't.vcd', 'DEFAULT'], ['dump', 'DEFAULT']],
                       'expect': expect_dump(den), 'toks': toks, 'nontrivial': bool(den['signals']) and bool(den['ts'])})
     for t in MALFORMED:
-        cases.append({'id': len(cases), 'cmds': [['file', 't.vcd', t], ['load', 't.vcd', 'DEFAULT'], ['dump', 'DEFAULT']],
+        cases.append({'id': len(cases), 'cmds': [['file', 't.vcd', t], ['load', 't.vcd', 'DEFAULT']],
                       'expect': None, 'toks': t.split(), 'nontrivial': False})
     if replay:
         import json
